@@ -54,3 +54,53 @@ func ThresholdQ(q []float64) float64 {
 	}
 	return Igamc(4.5, V/2)
 }
+
+// ThresholdQ_alt1: the same ten classes found by scanning the nine upper bounds in increasing order:
+// the class of x is the first k with x < bounds[k], else 9 — exactly the if-chain of ThresholdQ
+// (the chain tests the same bounds in the same order with the same float64 comparison).
+func ThresholdQ_alt1(q []float64) float64 {
+	bounds := [9]float64{0.1, 0.2, 0.3, 0.4, 0.5, 0.6, 0.7, 0.8, 0.9}
+	var f [10]int
+	for i := 0; i < len(q); i++ {
+		x := q[i]
+		k := 0
+		for k < len(bounds) && !(x < bounds[k]) {
+			k++
+		}
+		f[k]++
+	}
+	e := float64(len(q)) / 10
+	V := 0.0
+	for i := 0; i < 10; i++ {
+		d := float64(f[i]) - e
+		V += d * d / e
+	}
+	return igamc(4.5, V/2)
+}
+
+// ThresholdQ_alt2: the class found by a helper that scans a package-level table of the nine upper bounds and
+// returns at the first bound above x (same comparisons in the same order as the if-chain).
+var tqEdges = [9]float64{0.1, 0.2, 0.3, 0.4, 0.5, 0.6, 0.7, 0.8, 0.9}
+
+func tqInterval(x float64) int {
+	for i, e := range tqEdges {
+		if x < e {
+			return i
+		}
+	}
+	return len(tqEdges)
+}
+
+func ThresholdQ_alt2(q []float64) float64 {
+	var f [10]int
+	for i := 0; i < len(q); i++ {
+		f[tqInterval(q[i])]++
+	}
+	e := float64(len(q)) / 10
+	V := 0.0
+	for i := 0; i < 10; i++ {
+		d := float64(f[i]) - e
+		V += d * d / e
+	}
+	return Igamc(4.5, V/2)
+}
